@@ -22,6 +22,9 @@ var allTargets = []string{
 	"R/f", "R/d", "R/nope",
 	"l1", "l2", "l3",
 	"d/../l1", "../l1", "d/l1",
+	// a sibling whose name has the name of the link's directory as a strict
+	// prefix: substituting the link must not take "R/d" for a prefix of "R/dd"
+	"../dd", "../dd/f",
 }
 
 var linkNames = []string{"l1", "l2", "l3"}
